@@ -452,6 +452,20 @@ func (ex *Exec) execFrom(st *State, fr *Frame, b *ssa.BasicBlock, idx int) []Out
 				ex.emit(st, fr, "safety/panic", ex.L.instrDetail(in), "explicit panic is unreachable", False, nil, in.Pos())
 			}
 			return nil
+		case *ssa.Lookup:
+			if outs := ex.lookupFork(st, fr, x); outs != nil {
+				var res []Outcome
+				for k, o := range outs {
+					f := fr
+					if k < len(outs)-1 {
+						f = fr.clone()
+					}
+					f.regs[x] = o.rets[0]
+					res = append(res, ex.execFrom(o.st, f, b, i+1)...)
+				}
+				return res
+			}
+			ex.step(st, fr, in)
 		case *ssa.Call:
 			outs := ex.call(st, fr, x)
 			if outs == nil {
@@ -1396,6 +1410,55 @@ func (ex *Exec) lookup(st *State, fr *Frame, x *ssa.Lookup) Value {
 	}
 	oos("map lookup with symbolic key")
 	return nil
+}
+
+// lookupFork: map lookup with a symbolic string key in a concretely known map: one path per entry
+// (key equal to that entry's key) plus the not-found path. Returns nil when not applicable.
+func (ex *Exec) lookupFork(st *State, fr *Frame, x *ssa.Lookup) []Outcome {
+	m := ex.operand(st, fr, x.X)
+	mr, ok := m.(VMapRef)
+	if !ok || mr.Obj == 0 {
+		return nil
+	}
+	ks, ok := ex.operand(st, fr, x.Index).(VStr)
+	if !ok || ks.Lit != nil {
+		return nil
+	}
+	mv := st.heap[mr.Obj].Val.(VMapVal)
+	if mv.Symbolic {
+		return nil
+	}
+	vt := x.X.Type().Underlying().(*types.Map).Elem()
+	wrap := func(v Value, found *Term) Value {
+		if x.CommaOk {
+			return VTuple{[]Value{v, VBool{found}}}
+		}
+		return v
+	}
+	var outs []Outcome
+	none := True
+	seen := map[string]bool{}
+	for i := len(mv.Entries) - 1; i >= 0; i-- {
+		e := mv.Entries[i]
+		el, ok := e.K.(VStr)
+		if !ok || el.Lit == nil {
+			oos("map with non-literal string key")
+		}
+		if seen[*el.Lit] {
+			continue
+		}
+		seen[*el.Lit] = true
+		c := Eq(strID(ks), strID(el))
+		none = And(none, Not(c))
+		s2 := st.clone()
+		s2.assume(c)
+		ex.checkPaths()
+		outs = append(outs, Outcome{s2, []Value{wrap(e.V, True)}})
+	}
+	s2 := st.clone()
+	s2.assume(none)
+	outs = append(outs, Outcome{s2, []Value{wrap(zeroValue(vt), False)}})
+	return outs
 }
 
 // ---------- loops ----------
